@@ -595,6 +595,11 @@ def gen(ctx, emit):
     def rt(name, fields, tag=""):
         emit("msg_rt %s %s%s" % (name, show_fields(fields), (" " + tag) if tag else ""))
 
+    # names the table does not have (names are case-sensitive): KeyError from parse and from pack
+    for bogus in ("nosuchmessage", "Version", "ping2", "x"):
+        emit("msg_parse %s 00" % bogus)
+        emit("msg_parse %s -" % bogus)
+        emit("msg_rt %s ~" % bogus)
     for name in NAMES:
         layout = REF[name]
         has_array = any(isinstance(t, list) for _, t in layout)
